@@ -60,6 +60,7 @@ fn run(name: &str, args: &Value) -> Value {
         "c09_send_fails_on_unsubscribe" => c09::send_fails_on_unsubscribe(args),
         "c08_append" => c08::append(args),
         "c08_response" => c08::response(args),
+        "c08_error_payload" => c08::error_payload(args),
         other => {
             eprintln!("unknown scenario {other}");
             std::process::exit(3);
